@@ -39,7 +39,9 @@ MANIFEST = {
             "or a zero block; file selection is invariant under permutations of the directory listing; ConcatDataset runs the "
             "binary search of CPython's bisect_right, which is proved to meet the documented contract on every non-decreasing "
             "list, maps idx to (member, local index) uniquely = entry idx of the flat enumeration of the members, negatives as "
-            "len+idx, out-of-range rejected; synthetic items are functions of the per-sample seed only, independent of the global "
+            "len+idx, out-of-range rejected; idx <-> (member position, local index) is an order-preserving bijection between "
+            "0..len-1 and the disjoint union of the members' index ranges for every list of sizes (concat_locate_bijection / _onto / "
+            "_injective / _strict_mono), also when the same object sits at several positions (concat_repeated_objects); synthetic items are functions of the per-sample seed only, independent of the global "
             "stream, of any mixed access history, and of the schedule (worker / epoch / copy) that serves an epoch; every request "
             "behind an item goes to a stream seeded with the item's seed inside the same access, make_blobs' per-centre counts add up "
             "to n_samples. Tied to the code by 17 translated arithmetic kernels + 17 structural tables (bridge lemmas, incl. no "
@@ -57,7 +59,9 @@ MANIFEST = {
             "XML header written by the harness (the real header parser runs). The numerics between draws and k-space are a "
             "parameter `render`; their bit-reproducibility (also under in-place modification of returned arrays, pickle / deepcopy "
             "copies, forked DataLoader workers over two epochs, the same object several times in a concatenation, numpy integer "
-            "indices, seed=None) is checked on the implementation only. Repaired findings keep witnesses (duplicate_names_, "
+            "indices, seed=None) is checked on the implementation only; the *index resolution* of a concatenation with repeated / "
+            "empty objects under Python and numpy integer indices (int64/32/16, uint8/16, intp) is compared with the proved model on "
+            "every run (`locatex` lines: position selected in self.datasets, object identity, local index). Repaired findings keep witnesses (duplicate_names_, "
             "listing_order_, window_, fake_, shepp_pinned_violates, shepp_negative_index_pinned_violates). Observations outside the "
             "quantifier (evidence notes): explicit duplicate `filenames` of FakeMRIBlobsDataset are used verbatim "
             "(fake_duplicate_names_observation).",
@@ -74,6 +78,8 @@ TRUSTED = [
     "Python list indexing, dict insertion order: hand-modelled, validated by correspondence; re.match results, Path ordering, the "
     "OS directory listing order and which spellings are equal as pathlib.Path objects (`norm`) are inputs of the model (computed "
     "by the harness with the same library calls; every filter entry is passed as form code + normalised id)",
+    "numpy integer scalars used as ConcatDataset indices behave as the integers they denote in `<`, unary minus, `+`, `-` and "
+    "bisect_right for |values| far below the type's range (the `locatex` cases keep len <= 60): checked by correspondence, not modelled",
     "bisect.bisect_right, slice.indices, len(range)/list(range), list(dict.fromkeys): executable model definitions compared "
     "directly with the library on every run (bisect_right also on unsorted lists) — no longer assumed by any theorem",
     "h5py: file[key][a:b] returns slices a..b-1; numpy concatenate/zeros/swapaxes index semantics",
@@ -104,7 +110,8 @@ RULE = ("h5 pools: files with 1..9 slices, content value = 1000*file + slice; da
         "filter / lists); filters = None / slice objects with None/negative/out-of-range bounds and steps ±1..±5 / malformed "
         "(step 0, truthy non-slices incl. range objects, falsy non-slices), contexts 0..3, pass_h5s / sensitivity_maps "
         "companions; every index incl. negative and out-of-range is accessed; library streams: bisect_right on sorted and "
-        "unsorted lists, slice.indices on n in 0..104, dict.fromkeys; synthetic index streams: FakeMRIBlobsDataset with names "
+        "unsorted lists, ConcatDataset over 0..5 positions drawn with repetition from 1..4 probe objects of sizes 0..12 indexed with "
+        "int / numpy signed / unsigned integers in -len-3..len+2, slice.indices on n in 0..104, dict.fromkeys; synthetic index streams: FakeMRIBlobsDataset with names "
         "None / str / list of the right or a wrong length / empty, 2-D and 3-D, SheppLoganDataset nz 1..5 with indices -nz-2..nz+1; "
         "RNG streams: FakeMRIData calls (coils 1..8, seeds incl. 0, blobs_n_samples set or not) and dataset items. non-trivial = "
         "at least 2 readable files and (a filter or context >= 1) for h5 cases, every dataset/cmr construction case, >= 2 members "
@@ -289,6 +296,38 @@ def impl_locate(sizes, idx):
         except (ValueError, IndexError, AssertionError) as e:
             return "err " + err_name(e)
         return ok([d, j])
+    return run
+
+
+class _RecList(list):
+    """`self.datasets` of a ConcatDataset, recording which position `__getitem__` selects"""
+    picked = None
+
+    def __getitem__(self, k):
+        self.picked = k
+        return list.__getitem__(self, k)
+
+
+IDX_TYPES = [("int", int), ("int64", np.int64), ("int32", np.int32), ("int16", np.int16), ("uint8", np.uint8), ("uint16", np.uint16),
+             ("intp", np.intp)]
+
+
+def impl_locatex(obj_sizes, pattern, idx, ty):
+    """ConcatDataset over a list in which the same object occurs several times, indexed with a Python or numpy integer"""
+    from direct.data.datasets import ConcatDataset
+
+    def run():
+        try:
+            objs = [_Probe(t, n) for t, n in enumerate(obj_sizes)]
+            cd = ConcatDataset([objs[p] for p in pattern])
+            cd.datasets = _RecList(cd.datasets)
+            tag, j = cd[IDX_TYPES[ty][1](idx)]
+            d = cd.datasets.picked
+            if cd.datasets[d] is not objs[tag]:
+                return "err WrongObject"
+        except (ValueError, IndexError, AssertionError) as e:
+            return "err " + err_name(e)
+        return ok([d, tag, j])
     return run
 
 
@@ -974,6 +1013,24 @@ def correspondence(ctx: Ctx):
         kind = "neg" if -tot <= idx < 0 else "pos" if 0 <= idx < tot else "out"
         yield {"line": pline("locate", sizes, [idx]), "impl": impl_locate(sizes, idx), "nontrivial": k >= 2,
                "bucket": f"concat/members{k}/{kind}" + ("/empty-member" if 0 in sizes else "")}
+    # ---- ConcatDataset with the same object at several positions, Python / numpy integer indices (phase 4)
+    for t in range(ctx.budget(300, 4000)):
+        n_obj = rng.randint(1, 4)
+        obj_sizes = [rng.choice([0, 1, 2, 3, 5, 9]) if rng.random() < 0.6 else rng.randint(0, 12) for _ in range(n_obj)]
+        k = rng.randint(1, 5) if rng.random() < 0.95 else 0
+        pattern = [rng.randrange(n_obj) for _ in range(k)]
+        tot = sum(obj_sizes[p] for p in pattern)
+        ty = rng.randrange(len(IDX_TYPES))
+        unsigned = IDX_TYPES[ty][0].startswith("uint")
+        r = rng.random()
+        idx = rng.randint(-tot - 3, tot + 2) if r < 0.8 else rng.choice([-tot - 1, -tot, -1, 0, tot - 1, tot])
+        if unsigned and idx < 0:
+            idx = -idx - 1
+        kind = "neg" if -tot <= idx < 0 else "pos" if 0 <= idx < tot else "out"
+        yield {"line": pline("locatex", obj_sizes, pattern, [idx, ty]), "impl": impl_locatex(obj_sizes, pattern, idx, ty),
+               "nontrivial": k >= 2,
+               "bucket": f"concat-rep/{IDX_TYPES[ty][0]}/{kind}" + ("/repeated" if len(set(pattern)) < k else "")
+                         + ("/empty-member" if any(obj_sizes[p] == 0 for p in pattern) else "")}
     # ---- RNG streams of the synthetic datasets: which stream serves which request, in which order
     for t in range(ctx.budget(24, 200)):
         coils = rng.choice([1, 1, 2, 3, 4, 8])
@@ -2017,6 +2074,7 @@ _OP_WHAT = {
     "dataset": "dataset class built from constructor arguments: data / volume_indices / items",
     "cmr": "CMRxReconDataset built from constructor arguments: data / volume_indices / items",
     "locate": "ConcatDataset(members of the given sizes)[idx] -> (member, local index)",
+    "locatex": "ConcatDataset([objs[p] for p in pattern])[idx as a Python / numpy integer] -> (position, object, local index)",
     "bisect": "bisect.bisect_right(xs, x)",
     "sliceidx": "slice.indices(n), len(range(...)), list(range(...))",
     "dedup": "list(dict.fromkeys(xs))",
@@ -2038,6 +2096,8 @@ def _impl_from_line(line: str):
     g = _groups(line)
     if op == "locate":
         return impl_locate(g[0], g[1][0])
+    if op == "locatex":
+        return impl_locatex(g[0], g[1], g[2][0], g[2][1])
     if op == "bisect":
         return impl_bisect(g[0], g[1][0])
     if op == "dedup":
